@@ -801,7 +801,8 @@ impl Cx {
         Err(p) => self.viol(&format!("verify_signature-panic@{}", p.file_only()), format!("{} at {}", p.msg, p.loc()), &case),
         Ok(Err(e)) => self.viol("own-claims-rejected:credential", format!("claims produced by serialize_jwt were rejected: {}", e), &case),
         Ok(Ok((back, cc))) => {
-          if back != cred {
+          // decisive comparison on the JSON form (strings), not only on the library's own `==` (which goes through Url's PartialEq)
+          if back != cred || serde_json::to_value(&back).ok() != serde_json::to_value(&cred).ok() {
             let mut c2 = case.clone();
             c2["reconstructed"] = serde_json::to_value(&back).unwrap_or(Value::Null);
             self.viol("credential-roundtrip-differs", "credential -> claims -> credential is not the identity".into(), &c2);
@@ -922,7 +923,7 @@ impl Cx {
       Err(p) => self.viol(&format!("presentation-validate-panic@{}", p.file_only()), format!("{} at {}", p.msg, p.loc()), &case),
       Ok(Err(e)) => self.viol("own-claims-rejected:presentation", format!("claims produced by serialize_jwt were rejected: {}", e), &case),
       Ok(Ok((back, baud, bexp, biat, bcustom))) => {
-        if back != pres {
+        if back != pres || serde_json::to_value(&back).ok() != serde_json::to_value(&pres).ok() {
           self.viol("presentation-roundtrip-differs", "presentation -> claims -> presentation is not the identity".into(), &case);
         }
         if baud.as_ref().map(|u| u.to_string()) != aud || bexp.map(|t| t.to_unix()) != exp || biat.map(|t| t.to_unix()) != iat || bcustom.clone().filter(|o| !o.is_empty()) != custom_obj {
@@ -1316,6 +1317,308 @@ impl Cx {
       }
     }
   }
+
+  /// The serialisation of `s` as parsed by `Url` (a plain String: never compare `Url` values with the library's `==`).
+  fn url_norm(&mut self, s: &str) -> Option<String> {
+    match catch(|| Url::parse(s).ok().map(|u| u.as_str().to_string())) {
+      Ok(o) => o,
+      Err(_) => None,
+    }
+  }
+
+  /// Near-miss duplicates: a URL-valued member repeated inside vc / vp whose spelling is ALMOST the registered claim's (trailing
+  /// slashes added / removed, letter case of scheme / host / path, default or other port, percent-encoding case, empty query /
+  /// fragment, dot segments). Model: two spellings denote the same value iff their serialisations as parsed by Url are the same
+  /// string; if the strings differ the duplicate disagrees with the registered claim and the claims set must be rejected. If they
+  /// are the same string the set may be refused or accepted, then carrying exactly that string.
+  fn nearmiss(&mut self, rng: &mut Rng, pair: &str, base: &str, kind: &str, class: &str, on_registered: bool) {
+    let variant = match nm_variant(base, kind) {
+      Some(v) => v,
+      None => return,
+    };
+    self.rep.eval();
+    self.rep.inc("nearmiss_cases");
+    let (reg, dup) = if on_registered { (variant.clone(), base.to_string()) } else { (base.to_string(), variant.clone()) };
+    let (nreg, ndup) = (self.url_norm(&reg), self.url_norm(&dup));
+    let presentation = pair.contains("vp.");
+    let t = 1_600_000_000i64 + rng.below(1000) as i64;
+    let mut top = RawObj::default();
+    let mut inner = RawObj::default();
+    inner.push("@context", js(credgen::BASE_CONTEXT));
+    let signer: String;
+    if presentation {
+      let holder = "did:example:holder-t";
+      inner.push("type", js("VerifiablePresentation"));
+      inner.push("verifiableCredential", "[]");
+      match pair {
+        "jti/vp.id" => {
+          signer = holder.to_string();
+          top.push("iss", js(holder));
+          top.push("jti", js(&reg));
+          inner.push("id", js(&dup));
+          if rng.bool() {
+            inner.push("holder", js(holder));
+          }
+        }
+        _ => {
+          signer = base.to_string();
+          top.push("iss", js(&reg));
+          top.push("jti", js("https://example.edu/presentations/1"));
+          inner.push("holder", js(&dup));
+        }
+      }
+      top.push("nbf", t.to_string());
+      top.push("exp", (t + 1000).to_string());
+    } else {
+      let issuer = "did:example:issuer-t";
+      inner.push("type", js("VerifiableCredential"));
+      let mut subject = RawObj::default();
+      subject.push("degree", js("BSc"));
+      let (mut iss, mut jti, mut sub) = (js(issuer), js("https://example.edu/credentials/1"), js("did:example:subject-t"));
+      signer = if pair.starts_with("iss/") { base.to_string() } else { issuer.to_string() };
+      match pair {
+        "jti/vc.id" => {
+          jti = js(&reg);
+          inner.push("id", js(&dup));
+        }
+        "sub/vc.credentialSubject.id" => {
+          sub = js(&reg);
+          subject.push("id", js(&dup));
+        }
+        "iss/vc.issuer" => {
+          iss = js(&reg);
+          inner.push("issuer", js(&dup));
+        }
+        _ => {
+          // both sides in object form, equal in every other member
+          iss = format!("{{\"id\":{},\"name\":\"Example University\"}}", js(&reg));
+          inner.push("issuer", format!("{{\"id\":{},\"name\":\"Example University\"}}", js(&dup)));
+        }
+      }
+      top.push("iss", iss);
+      top.push(if rng.chance(1, 4) { "iat" } else { "nbf" }, t.to_string());
+      if rng.bool() {
+        top.push("exp", (t + 1000).to_string());
+      }
+      top.push("jti", jti);
+      top.push("sub", sub);
+      if rng.bool() {
+        inner.push("credentialSubject", subject.text());
+      } else {
+        inner.0.insert(0, ("credentialSubject".to_string(), subject.text()));
+      }
+    }
+    let inner_name = if presentation { "vp" } else { "vc" };
+    if rng.bool() {
+      top.push(inner_name, inner.text());
+    } else {
+      top.0.insert(0, (inner_name.to_string(), inner.text()));
+    }
+    let text = top.text();
+    let differ = match (&nreg, &ndup) {
+      (Some(a), Some(b)) => Some(a != b),
+      _ => None,
+    };
+    // what is known by construction, independently of any parser: these spellings cannot denote the registered claim's value
+    let surely_differs = base.contains('/')
+      && !base.contains('?')
+      && base != "https://example.edu"
+      && matches!(kind, "different" | "slash+1" | "slash+2" | "slash+3" | "slash-1" | "empty-query" | "empty-fragment" | "other-port");
+    let case = json!({"claims_text": text, "pair": pair, "registered_claim": reg, "repeated_value": dup, "variant": kind,
+      "variant_on": if on_registered { "registered-claim" } else { "repeated-value" },
+      "registered_as_serialised_by_Url": nreg, "repeated_as_serialised_by_Url": ndup, "must_reject": differ == Some(true)});
+    self.rep.distinct("nontrivial", &format!("nearmiss|{}|{}|{}|{:?}", pair, kind, on_registered, differ));
+    if differ == Some(false) && (surely_differs || kind == "different") {
+      // the parser folds two spellings the harness holds to be different: not judged here (and visible in the counters)
+      self.rep.inc("nearmiss_model_mismatch");
+      return;
+    }
+    match differ {
+      Some(true) => self.rep.inc("nearmiss_disagreeing"),
+      Some(false) => self.rep.inc("nearmiss_same_after_serialisation"),
+      None => self.rep.inc("nearmiss_unparsable"),
+    }
+    let what = if presentation { "presentation" } else { "credential" };
+    // (id, subject id, issuer / holder) of what came back, as strings
+    let got: Result<Result<(Option<String>, Option<String>, String), String>, vh::panicmon::PanicRec> = if presentation {
+      self.back_presentation(&signer, &text).map(|r| r.map(|b| (b.id, None, b.holder)))
+    } else {
+      self.back_credential(&signer, &text).map(|r| {
+        r.map(|(c, _)| {
+          (
+            c.id.as_ref().map(|u| u.as_str().to_string()),
+            c.credential_subject.iter().next().and_then(|s| s.id.as_ref().map(|u| u.as_str().to_string())),
+            c.issuer.url().as_str().to_string(),
+          )
+        })
+      })
+    };
+    match got {
+      Err(p) => self.viol(&format!("{}-nearmiss-panic@{}", what, p.file_only()), format!("{} at {}", p.msg, p.loc()), &case),
+      Ok(Err(_)) => match differ {
+        Some(true) => self.rep.inc("nearmiss_disagreeing_rejected"),
+        Some(false) => self.rep.inc("nearmiss_same_rejected"),
+        None => {}
+      },
+      Ok(Ok((id, sub, iss))) => match differ {
+        Some(true) => self.viol(
+          &format!("near-miss-duplicate-silently-resolved:{}:{}", what, class),
+          format!("{}: registered claim {} and repeated value {} are different URLs ({}), yet the claims set was accepted (as id={:?} subject={:?} issuer/holder={}): {}", pair, reg, dup, kind, id, sub, iss, text),
+          &case,
+        ),
+        Some(false) => {
+          self.rep.inc("nearmiss_same_accepted");
+          let want = nreg.clone().unwrap_or_default();
+          let carried = match pair {
+            "jti/vc.id" | "jti/vp.id" => id.clone().unwrap_or_default(),
+            "sub/vc.credentialSubject.id" => sub.clone().unwrap_or_default(),
+            _ => iss.clone(),
+          };
+          if carried != want {
+            self.viol(
+              &format!("near-miss-duplicate-carried-as-other-value:{}", what),
+              format!("{}: {} and {} both serialise to {} but the {} came back with {}", pair, reg, dup, want, what, carried),
+              &case,
+            );
+          }
+        }
+        None => {}
+      },
+    }
+  }
+
+  /// Round trip of a credential / presentation whose URL-valued members are written in the near-miss spellings: the registered claims
+  /// must carry exactly the strings the value serialises to, and the way back must give the same JSON.
+  fn nearmiss_roundtrip(&mut self, base: &str, kind: &str) {
+    let variant = match nm_variant(base, kind) {
+      Some(v) => v,
+      None => return,
+    };
+    let norm = match self.url_norm(&variant) {
+      Some(n) => n,
+      None => return,
+    };
+    self.rep.eval();
+    self.rep.inc("nearmiss_roundtrips");
+    let issuer = "did:example:issuer-t";
+    let vc_json = json!({"@context": credgen::BASE_CONTEXT, "type": "VerifiableCredential", "id": variant, "issuer": issuer,
+      "issuanceDate": rfc3339(1_600_000_000), "credentialSubject": {"id": variant, "degree": "BSc"}});
+    let case = json!({"credential": vc_json, "spelling": kind, "as_serialised_by_Url": norm});
+    let cred: Credential = match catch(|| Credential::from_json_value(vc_json.clone())) {
+      Ok(Ok(c)) => c,
+      _ => return,
+    };
+    let text = match catch(|| cred.serialize_jwt(None)) {
+      Ok(Ok(t)) => t,
+      Ok(Err(e)) => return self.viol("serialize_jwt-refuses-single-subject-credential", format!("serialize_jwt failed: {}", e), &case),
+      Err(p) => return self.viol(&format!("serialize_jwt-panic@{}", p.file_only()), format!("{} at {}", p.msg, p.loc()), &case),
+    };
+    let claims: Value = serde_json::from_str(&text).unwrap_or(Value::Null);
+    if claims.get("jti") != Some(&json!(norm)) || claims.get("sub") != Some(&json!(norm)) {
+      self.viol("claims-url-spelling-altered", format!("id / subject id {} carried as jti = {:?}, sub = {:?}", norm, claims.get("jti"), claims.get("sub")), &case);
+    }
+    match self.back_credential(issuer, &text) {
+      Err(p) => self.viol(&format!("verify_signature-panic@{}", p.file_only()), format!("{} at {}", p.msg, p.loc()), &case),
+      Ok(Err(e)) => self.viol("own-claims-rejected:credential", format!("claims produced by serialize_jwt were rejected: {}", e), &case),
+      Ok(Ok((back, _))) => {
+        if serde_json::to_value(&back).ok() != serde_json::to_value(&cred).ok() {
+          self.viol("credential-roundtrip-differs", format!("credential with id {} -> claims -> credential differs in its JSON form", variant), &case);
+        }
+      }
+    }
+  }
+}
+
+/// The near-miss spellings (kind, class used in the signature).
+const NM_KINDS: [(&str, &str); 19] = [
+  ("equal", "control"),
+  ("different", "control"),
+  ("slash+1", "trailing-slash"),
+  ("slash+2", "trailing-slash"),
+  ("slash+3", "trailing-slash"),
+  ("slash-1", "trailing-slash"),
+  ("dot-end", "dot-segment"),
+  ("dot-mid", "dot-segment"),
+  ("dotdot", "dot-segment"),
+  ("scheme-upper", "letter-case"),
+  ("host-upper", "letter-case"),
+  ("path-upper", "letter-case"),
+  ("path-lower", "letter-case"),
+  ("default-port", "port"),
+  ("other-port", "port"),
+  ("pct-case", "percent-encoding"),
+  ("pct-encode", "percent-encoding"),
+  ("empty-query", "empty-query-or-fragment"),
+  ("empty-fragment", "empty-query-or-fragment"),
+];
+
+const NM_BASES: [&str; 7] = [
+  "https://example.edu/credentials/3732",
+  "http://example.edu/Things/a%7eb/",
+  "https://example.edu",
+  "https://example.edu/c?x=1",
+  "did:example:ebfeb1f712ebc6f1c276e12ec21",
+  "did:example:Abc/path/",
+  "urn:uuid:3978344f-8596-4c3a-a978-8fcaba3903c5",
+];
+
+/// Bases for the pairs whose registered claim is the signer (it has to be a DID the harness document can be made for).
+const NM_DID_BASES: [&str; 2] = ["did:example:issuer-t", "did:example:ebfeb1f712ebc6f1c276e12ec21"];
+
+const NM_PAIRS: [&str; 6] = ["jti/vc.id", "sub/vc.credentialSubject.id", "iss/vc.issuer", "iss/vc.issuer(object)", "jti/vp.id", "iss/vp.holder"];
+
+/// The `kind` spelling of `base`, or None where the kind does not apply to that base.
+fn nm_variant(base: &str, kind: &str) -> Option<String> {
+  let colon = base.find(':')?;
+  let (scheme, rest) = (&base[..colon], &base[colon + 1..]);
+  let hier = rest.starts_with("//");
+  let (auth, tail) = if hier {
+    let r = &rest[2..];
+    let e = r.find(['/', '?', '#']).unwrap_or(r.len());
+    (&r[..e], &r[e..])
+  } else {
+    ("", rest)
+  };
+  let rebuild = |scheme: &str, auth: &str, tail: &str| if hier { format!("{}://{}{}", scheme, auth, tail) } else { format!("{}:{}", scheme, tail) };
+  let out = match kind {
+    "equal" => base.to_string(),
+    "different" => format!("{}-other", base),
+    "slash+1" => format!("{}/", base),
+    "slash+2" => format!("{}//", base),
+    "slash+3" => format!("{}///", base),
+    "slash-1" => base.strip_suffix('/')?.to_string(),
+    "dot-end" => {
+      if base.contains(['?', '#']) {
+        return None;
+      }
+      if base.ends_with('/') { format!("{}.", base) } else { format!("{}/.", base) }
+    }
+    "dot-mid" if hier && tail.starts_with('/') => rebuild(scheme, auth, &format!("/.{}", tail)),
+    "dotdot" if hier && tail.starts_with('/') => rebuild(scheme, auth, &format!("/zz/..{}", tail)),
+    "scheme-upper" => rebuild(&scheme.to_uppercase(), auth, tail),
+    "host-upper" if hier => rebuild(scheme, &auth.to_uppercase(), tail),
+    "path-upper" => rebuild(scheme, auth, &tail.to_uppercase()),
+    "path-lower" => rebuild(scheme, auth, &tail.to_lowercase()),
+    "default-port" if hier => rebuild(scheme, &format!("{}:{}", auth, if scheme == "https" { 443 } else { 80 }), tail),
+    "other-port" if hier => rebuild(scheme, &format!("{}:8443", auth), tail),
+    "pct-case" => {
+      let at = tail.find('%')?;
+      let hex = tail.get(at + 1..at + 3)?;
+      let flipped: String = hex.chars().map(|c| if c.is_ascii_lowercase() { c.to_ascii_uppercase() } else { c.to_ascii_lowercase() }).collect();
+      rebuild(scheme, auth, &format!("{}%{}{}", &tail[..at], flipped, &tail[at + 3..]))
+    }
+    "pct-encode" => {
+      let at = tail.rfind('e')?;
+      rebuild(scheme, auth, &format!("{}%65{}", &tail[..at], &tail[at + 1..]))
+    }
+    "empty-query" if !base.contains(['?', '#']) => format!("{}?", base),
+    "empty-fragment" if !base.contains('#') => format!("{}#", base),
+    _ => return None,
+  };
+  if out == base && kind != "equal" {
+    return None;
+  }
+  Some(out)
 }
 
 fn main() {
@@ -1329,7 +1632,10 @@ fn main() {
      member absent/equal/different x registered claim present/absent x iat/nbf combinations x numeric dates at the range ends; \
      claims sets written as raw text in which one member (registered claim, or value repeated inside vc/vp/credentialSubject) occurs twice \
      (bad-good / good-bad / equal / single control x adjacent or apart x counterpart present) and numeric dates spelled with a fraction or \
-     an exponent (table + random spellings x exp/nbf/iat slots x vc date present), for credentials and presentations. \
+     an exponent (table + random spellings x exp/nbf/iat slots x vc date present), for credentials and presentations; \
+     near-miss duplicates: each URL-valued duplicated pair (jti/vc.id, sub/vc.credentialSubject.id, iss/vc.issuer as string and object, \
+     jti/vp.id, iss/vp.holder) x base URL x spelling variant (trailing slashes, letter case, ports, percent-encoding, empty query/fragment, \
+     dot segments) x side, judged on the strings the two spellings serialise to. \
      distinct = field-presence class of the generated value resp. the tampering vector resp. (slot, kind of number, spelling)",
   );
   let mut rng = args.rng(7);
@@ -1406,6 +1712,34 @@ fn main() {
       cx.nonint_credential(&mut rng2, slot, &nc);
     } else {
       cx.nonint_presentation(&mut rng2, i / 5, &nc);
+    }
+  }
+  // Near-miss duplicates (own stream): every URL-valued duplicated pair x base URL x near-miss spelling x side carrying the spelling,
+  // all enumerated; plus the round trip of values written in those spellings.
+  let mut rng3 = args.rng(9);
+  let reps3 = if args.thorough && !small { 8 } else { 1 };
+  let mut k3 = 0u64;
+  for _ in 0..reps3 {
+    for pair in NM_PAIRS {
+      let bases: &[&str] = if pair.starts_with("iss/") { &NM_DID_BASES } else { &NM_BASES };
+      for base in bases {
+        for (kind, class) in NM_KINDS {
+          for on_registered in [false, true] {
+            k3 += 1;
+            if args.mine(k3) && (!small || (k3 / args.nshards.max(1)) % 4 == 0) {
+              cx.nearmiss(&mut rng3, pair, base, kind, class, on_registered);
+            }
+          }
+        }
+      }
+    }
+    for base in NM_BASES {
+      for (kind, _) in NM_KINDS {
+        k3 += 1;
+        if args.mine(k3) && (!small || (k3 / args.nshards.max(1)) % 4 == 0) {
+          cx.nearmiss_roundtrip(base, kind);
+        }
+      }
     }
   }
   cx.rep.finish();
